@@ -1075,7 +1075,8 @@ type bgRun struct {
 	clientErrs atomic.Int64
 	wrong      atomic.Int64
 	loadN      atomic.Int64
-	extra      int // keys the client load adds (the counter it increments)
+	ready      time.Time // when the population was complete
+	extra      int       // keys the client load adds (the counter it increments)
 }
 
 func startBg(dir, name string, opts *redka.Options, total int, expired func(i int) bool) (*bgRun, error) {
@@ -1101,6 +1102,7 @@ func startBgLoad(dir, name string, opts *redka.Options, total int, expired func(
 		})
 		cancel()
 	}
+	b.ready = time.Now()
 	if !load {
 		return b, nil
 	}
@@ -1135,6 +1137,12 @@ func startBgLoad(dir, name string, opts *redka.Options, total int, expired func(
 func (b *bgRun) finish(limit time.Duration) {
 	reclaimedAt := time.Duration(0)
 	var last map[string]int
+	// the bound counts from the moment every expired key was in place: a tick that fires while
+	// the population is still being written (a slow machine) may leave the rest to the next one
+	if late := b.ready.Sub(b.opened); late > 5*time.Second {
+		limit += late
+		count("slow_population")
+	}
 	for time.Since(b.opened) < limit {
 		rc, err := rowCounts(b.x)
 		if err == nil {
@@ -1278,11 +1286,17 @@ func runC20(seed int64, n int, long bool) {
 	}
 	for i := 0; i < 1500; i++ {
 		k := fmt.Sprintf("w%d", i)
-		_ = bgC.x.DB.Str().SetExpires(k, "v", time.Duration(1+i%40)*time.Second)
+		_ = bgC.x.DB.Str().SetExpires(k, "v", time.Duration(1+i%20)*time.Second)
 	}
 	bgC.dead = 1500
-	// everything has expired 40 s after the population; the tick at 60 s must take all of it
-	bgC.finish(limit)
+	// everything has expired 20 s after this point; the tick at 60 s must take all of it (on a
+	// machine so slow that this point lies beyond 38 s, the tick after that one)
+	limitC := limit
+	if time.Since(bgC.opened) > 38*time.Second {
+		limitC = 135 * time.Second
+		count("slow_population")
+	}
+	bgC.finish(limitC)
 	if len(sum.Failures) > 0 {
 		return
 	}
